@@ -359,6 +359,16 @@ func (w *World) Prelude(quant bool) string {
 		for j := 0; j < i; j++ {
 			fmt.Fprintf(&b, "(assert (not (= %s %s)))\n", c, w.strLits[w.strOrder[j]])
 		}
+		if quant && len(s) >= 1 && len(s) <= 64 {
+			// extensionality towards the literal: a sequence with these elements is the literal
+			// (lets a []byte{...} composite literal in the code meet a string literal in a contract)
+			var conj []string
+			conj = append(conj, fmt.Sprintf("(= (%s_len s) %d)", SSeqI, len(s)))
+			for k := 0; k < len(s); k++ {
+				conj = append(conj, fmt.Sprintf("(= (%s_idx s %d) %d)", SSeqI, k, s[k]))
+			}
+			fmt.Fprintf(&b, "(assert (forall ((s %s)) (! (=> (and %s) (= s %s)) :pattern ((%s_len s)))))\n", SSeqI, strings.Join(conj, " "), c, SSeqI)
+		}
 	}
 	var hs []string
 	for h := range w.heaps {
